@@ -325,6 +325,15 @@ func c14Eval(c *C14Case, al align.Alignment) *statSet {
 		fmt.Fprintf(&ps, "%c%v", nm, cs)
 	}
 	s.d("CountProfile", ps.String())
+	if prof.NbCharacters() > 0 {
+		// a count asked for outside the alignment is an error (sites -1, L, L+1), for a character the profile holds
+		nm0, _ := prof.NameAt(0)
+		_, ea := prof.Count(nm0, -1)
+		_, eb := prof.Count(nm0, L)
+		_, ec := prof.Count(nm0, L+1)
+		_, ed := prof.CountAt(0, L)
+		s.d("CountProfile.Count(outside)", fmt.Sprint(ea != nil, eb != nil, ec != nil, ed != nil))
+	}
 	g1, g2, g3, gerr := al.NumGapsUniquePerSequence(prof)
 	s.d("NumGapsUniquePerSequence", fmt.Sprint(g1, g2, g3, gerr))
 	m1, m2, m3, merr := al.NumMutationsUniquePerSequence(prof)
@@ -1022,6 +1031,10 @@ func (c14) Run(ctx *Ctx, ci interface{}) (o Outcome) {
 				}
 			}
 		}
+	}
+	if got, ok := s0.disc["CountProfile.Count(outside)"]; ok && got != "true true true true" {
+		o.Fail("index-domain:CountProfile.Count", "counts asked of the profile at sites -1, L, L+1 (Count) and L (CountAt): an error is reported = %s, all four must be errors\n%s", got, desc())
+		return
 	}
 	if got, ok := s0.disc["CountProfile.fromfile.sorted"]; ok && got != s0.disc["CountProfile.sorted"] {
 		// whatever the case of the residues: a profile written to a file and read back is the profile
